@@ -7,6 +7,7 @@ import (
 	"crypto/ed25519"
 	"crypto/rand"
 	"crypto/rsa"
+	"crypto/sha256"
 	"crypto/x509"
 	"crypto/x509/pkix"
 	"encoding/pem"
@@ -181,4 +182,9 @@ func MakeCert(s CertSpec) (*x509.Certificate, []byte, error) {
 // PEMCert encodes DER as a CERTIFICATE PEM block.
 func PEMCert(der []byte) []byte {
 	return pem.EncodeToMemory(&pem.Block{Type: "CERTIFICATE", Bytes: der})
+}
+
+func signPKCS1SHA256(rsaKey string, msg []byte) ([]byte, error) {
+	d := sha256.Sum256(msg)
+	return rsa.SignPKCS1v15(rand.Reader, RSAKey(rsaKey), crypto.SHA256, d[:])
 }
